@@ -20,11 +20,11 @@ REGISTRY = {
                          'BOUNDED (engine R): post-conditions of fit+transform on train and dev (label count, per-label frequency >= min_freq_mod, missing handling, same labels and '
                          'same rate ranking on dev) on the same frames as C01.',
              trusted=[]),
- 'C03': dict(level='other', P=[ENUM, FCM, CONV], R=['rtc.battery_C03', 'rtc.c01_carver', 'rtc.c09_base'],
+ 'C03': dict(level='other', P=[ENUM, FCM, CONV, ('contracts.carver_orders', None)], R=['rtc.battery_C03', 'rtc.c01_carver', 'rtc.c09_base'],
              explanation='PROVED: every grouping the carvers ever test is a contiguous partition of the ordered base modalities (enumerator soundness); convert_to_labels gives each feature its non-missing leaders in the '
                          'SAME order (their labels for a quantitative feature), the missing marker last; convert_to_values writes every label group back on the raw values: the raw values of one label group end in one group '
                          'led by one of them (the largest non-missing quantile per the assumed max), raw values of different label groups stay apart, no value is lost, leaders are only removed (so the order of the '
-                         'remaining leaders is the order they had), other features are untouched (get_labels / max assumed; three loops, ghost lemmas on the spec functions). BOUNDED: boundaries strictly '
+                         'remaining leaders is the order they had), other features are untouched (get_labels / max assumed; three loops, ghost lemmas on the spec functions); BaseCarver._update_orders, checked against those two contracts, writes the chosen combination of one feature on its raw values, leaves every other feature alone and hands back label orders recomputed from the new values orders. BOUNDED: boundaries strictly '
                          'increasing with +inf last, ordinal groups are consecutive runs of the user ranking, categorical leaders in target-rate order, transform is a non-decreasing '
                          'right-closed step function on probes (boundaries, nextafter neighbours, midpoints, +-1e300), fitted carver groups contiguous.'),
  'C04': dict(level='other', P=[('contracts.labels', None), ('contracts.type_discretizers', None), TRANSFORM], R=['rtc.battery_C04'],
